@@ -170,7 +170,7 @@ def _task(t):
             sig = {"klass": klass}
             k = common.sig_hash(sig)
             if k not in viols:
-                viols[k] = {"sig": sig, "count": 0, "what": "trace %s: %s" % (e5.spec_str(spec, p), text), "case": {"spec": spec}}
+                viols[k] = {"sig": sig, "count": 0, "what": "trace %s: %s" % (e5.spec_str(spec, p), text), "case": {"spec": e5.compact(spec)}}
             viols[k]["count"] += 1
     return {"st": st, "viols": viols, "shapes": shapes}
 
@@ -186,6 +186,8 @@ def run(ctx):
             traces = traces[:: 3]
         # keep traces that differ only in private values in the same chunk: sort by structure
         traces.sort(key=lambda s: (repr([(k, v if k == "pub" else 0) for k, v in s["vars"]]), repr(s["cons"])))
+        # large traces (more than 4096 private variables / constraints, more than 8192 variables; thorough > 65535)
+        traces = [e5.big_trace(9001, 4500, p)] + ([e5.big_trace(70001, 66000, p)] if ctx.thorough and name == "zkinterface" else []) + traces
         nchunks = common.NCPU * 2
         size = (len(traces) + nchunks - 1) // nchunks
         chunks = [traces[i:i + size] for i in range(0, len(traces), size)]
@@ -219,7 +221,7 @@ def replay(case):
     name = case.get("backend", "zkinterface")
     p = {"zkinterface": REC.BN128, "zkifbellman": REC.BLS12_381, "zkifbulletproofs": REC.CURVE25519}[name]
     _init(name)
-    spec = {"vars": [tuple(v) for v in case["spec"]["vars"]], "cons": [tuple(c) for c in case["spec"]["cons"]]}
+    spec = e5.expand(case["spec"], p)
     _reset()
     e5.build(_B, spec, p)
     _B.prove()
